@@ -16,7 +16,8 @@ EXTENDS CompileCache, TLAPS
 ASSUME NotLegacy == Legacy = FALSE
 ASSUME SrcsNonEmpty == Srcs # {}
 
-PCs   == {"idle", "import1", "mkdir", "pyx_open", "pyx_write", "cythonize", "build", "publish", "cleanup", "import2", "done"}
+PCs   == {"idle", "import1", "mkdir", "pyx_open", "pyx_write", "cythonize", "build", "publish", "cleanup", "import2", "done",
+          "toolerror"}
 Privs == {"none", "dir", "pyx_partial", "pyx", "c", "so"}
 
 IndInv ==
@@ -97,6 +98,9 @@ LEMMA PublishInd == ASSUME IndInv, NEW p \in Procs, Publish(p) PROVE IndInv'
 LEMMA CrashInd == ASSUME IndInv, NEW p \in Procs, Crash(p) PROVE IndInv'
   BY DEF IndInv, Crash, PCs, Privs
 
+LEMMA ToolFailsInd == ASSUME IndInv, NEW p \in Procs, ToolFails(p) PROVE IndInv'
+  BY DEF IndInv, ToolFails, PCs, Privs
+
 LEMMA RestartInd == ASSUME IndInv, NEW p \in Procs, Restart(p) PROVE IndInv'
   BY DEF IndInv, Restart, PCs
 
@@ -138,8 +142,9 @@ LEMMA NextInd == IndInv /\ [Next]_vars => IndInv'
     BY <1>2 DEF IndInv, vars, TimePasses
   <1>3. CASE ClearCache
     BY <1>3, ClearInd
-  <1>4. ASSUME NEW p \in Procs, (\E m \in Srcs : Request(p, m)) \/ Work(p) \/ Crash(p) \/ Restart(p) PROVE IndInv'
-    BY <1>4, RequestInd, WorkInd, CrashInd, RestartInd
+  <1>4. ASSUME NEW p \in Procs, (\E m \in Srcs : Request(p, m)) \/ Work(p) \/ Crash(p) \/ ToolFails(p) \/ Restart(p)
+        PROVE IndInv'
+    BY <1>4, RequestInd, WorkInd, CrashInd, ToolFailsInd, RestartInd
   <1> QED BY <1>1, <1>2, <1>3, <1>4 DEF Next
 
 THEOREM SafetyForAnyNumberOfProcesses == Spec => []Safe
@@ -161,8 +166,8 @@ LEMMA NoOverwriteStep == IndInv /\ [Next]_vars =>
     BY <1>2, FilesFacts DEF ClearCache
   <1>3. ASSUME NEW p \in Procs, NEW m \in Srcs, Request(p, m) PROVE fin' = fin
     BY <1>3 DEF Request
-  <1>4. ASSUME NEW p \in Procs, Crash(p) \/ Restart(p) PROVE fin' = fin
-    BY <1>4 DEF Crash, Restart
+  <1>4. ASSUME NEW p \in Procs, Crash(p) \/ ToolFails(p) \/ Restart(p) PROVE fin' = fin
+    BY <1>4 DEF Crash, ToolFails, Restart
   <1>5. ASSUME NEW p \in Procs, Work(p) PROVE \A m \in Srcs : fin[m]["so"] = Complete => fin'[m]["so"] = Complete
     <2>1. CASE Import1(p) \/ Import2(p)
       BY <2>1 DEF Import1, Import2, Import
